@@ -77,6 +77,13 @@ def selector_protocols():
             ctor = dict(kw)
             ctor["n_to_select"] = integer("S")
             out.append(Proto(f"{pkg}.{cname}", f"skmatter.{pkg}_selection.{cname}", ctor, steps, assume=assume_default, order=[("S", "<=", "M" if axis == 1 else "N")]))
+            # non-default configurations: early stop on a score threshold, other initialisations
+            for ttype in ("absolute", "relative"):
+                Xt_, yt_ = XY()
+                out.append(Proto(f"{pkg}.{cname}[{ttype} threshold]", f"skmatter.{pkg}_selection.{cname}", dict(ctor, score_threshold=scalar("thr"), score_threshold_type=ttype), [("fit", (Xt_, yt_), {}), ("fit", (Xt_, yt_), {"warm_start": True})], assume=assume_default, order=[("S", "<=", "M" if axis == 1 else "N")]))
+            if "FPS" in cname:
+                Xr_, yr_ = XY()
+                out.append(Proto(f"{pkg}.{cname}[initialize=random]", f"skmatter.{pkg}_selection.{cname}", dict(ctor, initialize="random"), [("fit", (Xr_, yr_), {}), ("fit", (Xr_, yr_), {})], assume=assume_default, order=[("S", "<=", "M" if axis == 1 else "N")]))
             if cname in ("FPS", "CUR"):
                 Xn = arr("Xn", "N", "M")
                 out.append(Proto(f"{pkg}.{cname}[no y]", f"skmatter.{pkg}_selection.{cname}", ctor, [("fit", (Xn,), {})], assume=assume_default, order=[("S", "<=", "M" if axis == 1 else "N")]))
